@@ -211,6 +211,23 @@ class AIterOnly:
         return agen_of(self.xs)
 
 
+class Hinted:
+    """a one-shot iterator without __len__ whose __length_hint__ is an estimate (PEP 424 allows over- and
+    under-estimates): database cursors, paginated results"""
+    def __init__(self, xs):
+        self.it = iter(list(xs))
+        self.n = len(xs)
+
+    def __iter__(self):
+        return self
+
+    def __next__(self):
+        return next(self.it)
+
+    def __length_hint__(self):
+        return 1 if self.n != 1 else 3
+
+
 class OnlyIter:
     def __init__(self, xs):
         self.xs = xs
@@ -220,8 +237,8 @@ class OnlyIter:
 
 
 MAKE = {"list": list, "tuple": tuple, "iter": lambda xs: iter(list(xs)), "gen": gen_of, "agen": agen_of,
-        "onlyiter": OnlyIter, "aiterable": AIterOnly}
-SIZED = {"list": "S", "tuple": "S", "iter": "U", "gen": "U", "agen": "U", "onlyiter": "U", "aiterable": "U"}
+        "onlyiter": OnlyIter, "aiterable": AIterOnly, "hinted": Hinted}
+SIZED = {"list": "S", "tuple": "S", "iter": "U", "gen": "U", "agen": "U", "onlyiter": "U", "aiterable": "U", "hinted": "U"}
 
 
 def drive_sync(cn, LoopContext, Undefined, kind, xs, script, d0):
@@ -496,6 +513,7 @@ def run(ctx):
     ctx.assumptions += [
         "iterables are well behaved: iterating yields the same items once, exhausted iterators stay exhausted, no item is the `missing` sentinel",
         "items are compared by value in changed() (modelled as N)",
+        "len(iterable), when the object has one, is the number of items a full iteration yields (sized sequences); objects whose len() means 'remaining' or counts something else are outside the statement's classes",
     ]
     ctx.proof("C07")
     # T5: the current source of the LoopContext / AsyncLoopContext members, translated into the deep
@@ -572,12 +590,12 @@ def run(ctx):
     async_jobs = []
     for idx, (xs, script) in enumerate(scripts):
         d0 = d0s[idx]
-        for kind in ("list", "tuple", "iter", "gen") + (("onlyiter",) if idx % 5 == 0 else ()):
+        for kind in ("list", "tuple", "iter", "gen") + (("onlyiter", "hinted") if idx % 5 == 0 else ()):
             real = drive_sync(cn, LoopContext, Undefined, kind, xs, script, d0)
             case = {"idx": idx, "via": "LoopContext", "iterable": kind, "items": xs, "script": script, "depth0": d0}
             judge(case, SIZED[kind], ("s", kind, tuple(xs), enc_script(script)) if nontrivial(SIZED[kind], script) else None, real)
             ctx.count("drive_sync_" + kind)
-        for kind in ("list", "tuple", "iter", "gen", "agen") + (("onlyiter", "aiterable") if idx % 3 == 0 else ()):
+        for kind in ("list", "tuple", "iter", "gen", "agen") + (("onlyiter", "aiterable", "hinted") if idx % 3 == 0 else ()):
             async_jobs.append((idx, kind, xs, script, d0))
 
     async def all_async():
@@ -626,7 +644,7 @@ def run(ctx):
         xs, script = pool[ctx.rng.randrange(len(pool))] if j % 3 else pool[j % len(pool)]
         flt = ctx.rng.choice(["-", "-", "o", "e", "n"])
         mode = "async" if j % 2 else "sync"
-        kind = ctx.rng.choice(["list", "tuple", "iter", "gen", "onlyiter"] + (["agen", "aiterable"] if mode == "async" else []))
+        kind = ctx.rng.choice(["list", "tuple", "iter", "gen", "onlyiter", "hinted"] + (["agen", "aiterable"] if mode == "async" else []))
         tcases.append({"via": "template/" + mode, "iterable": kind, "items": xs, "script": script, "filter": flt, "depth0": 0,
                        "prelude": ctx.rng.choice([0, 0, 0, 1, 2, 3, 4]), "scoped_wrap": ctx.rng.random() < 0.2,
                        "unpack": ctx.rng.random() < 0.2, "axis": ctx.rng.choice(AXES)})
